@@ -6,9 +6,14 @@
 mod checks;
 mod eng_codec;
 mod eng_hpack;
+mod eng_pair;
+mod oracles;
 mod mockio;
 mod refmodel;
 mod runner;
+mod sim;
+mod sim_pair;
+mod tapx;
 mod tape;
 mod util;
 
